@@ -5,6 +5,7 @@ import AioftpModel.Model.Paths
 import AioftpModel.Driver.Session
 import AioftpModel.Driver.Lifecycle
 import AioftpModel.Driver.Perms
+import AioftpModel.Driver.Faults
 import AioftpModel.Driver.Logs
 
 open Codec Model Py
@@ -47,6 +48,7 @@ def handlePure : List String → Option String
   | "paths" :: rest => handlePaths rest
   | "life" :: rest => DriverLifecycle.handleLife rest
   | "perms" :: rest => DriverPerms.handlePerms rest
+  | "fault" :: rest => DriverFaults.handleFaults rest
   | "logs" :: rest => DriverLogs.handleLogs rest
   | _ => none
 
